@@ -107,7 +107,26 @@ func c04Config(seed uint64, c int) (*SendScenario, []c04Pos) {
 		ms.Enc = sim.Pick(r, []string{"quoted-printable", "base64", "8bit", "quoted-printable"})
 		batch = append(batch, ms)
 	}
+	// every now and then the batch holds a nil message, or a message without sender (both are
+	// refused locally and must not disturb the dialogue of the others)
+	if r.Chance(1, 8) {
+		at := r.Intn(len(batch) + 1)
+		nb := append([]MsgSpec(nil), batch[:at]...)
+		nb = append(nb, MsgSpec{Token: "nil", NoMsg: true})
+		batch = append(nb, batch[at:]...)
+	}
+	if r.Chance(1, 8) {
+		ms := SimpleMsg("nofrom", "x@dest.example")
+		ms.From = ""
+		batch = append(batch, ms)
+	}
 	sc.Batches = [][]MsgSpec{batch}
+	if sc.Op == "send" && r.Chance(1, 4) {
+		// a second Send call on the same connection
+		sc.Batches = append(sc.Batches, []MsgSpec{SimpleMsg("second", "y@dest.example")})
+		nm++
+		nrTotal++
+	}
 	var ps []c04Pos
 	add := func(v string, n int) {
 		for k := 1; k <= n; k++ {
